@@ -64,10 +64,16 @@ section that is a member of a PT_LOAD only (load adds TLS sections to PT_TLS seg
 the last one is inside the documented writer domain and reported as a finding CANDIDATE (candidates/
 c06-tls-member-of-load.case), not registered.  `Compose.SaveLoadSaveStatement` (FlatDomain + ResaveOk only) is therefore
 too weak as first written; `saveLoadSave_flat_statement` is the proved form.
-Stated, not proved: save . load . save for NESTED segments (the loader re-derives a nested segment's members by address
-as well; `save_congr`, `save_twice_runs` and `reload_reports_saved_nested` cover nested segments, `members_recomputed`
-does not); ResaveOkR's no-wrap clause from `layoutNW` (it is a decidable hypothesis on the input, evaluated along the
-layout); a closed-form sufficient condition for `noWrap64InB` (e.g. "all sizes and addresses below 2^62") is not proved.
+NESTED SEGMENTS: `save_load_save_nested_input` / `save_load_save_of_members_nested` - the same conclusion for objects
+whose segments are flat or nested (`NestedDomain selE selN`, see families/c20.py), every hypothesis decidable and on the
+input object; here the equality of recomputed and declared member lists is a CHECKED hypothesis (`membersRecomputedInB o
+hd`, a Bool function of the input that runs the layout and applies `Spec.inSegment` to its result;
+`membersRecomputed_of_input`), not derived from structural hypotheses as `members_recomputed` does for flat segments.
+Non-vacuity: `exNestedM` (a PT_LOAD nested in a PT_LOAD).
+Not proved: `members_recomputed` for nested segments from structural hypotheses (a TLS section inside a PT_LOAD and a
+nested PT_TLS - the usual nesting - is dropped from the PT_LOAD's list by the loader, so the lists do differ there);
+ResaveOkR's no-wrap clause from `layoutNW` (it is a decidable hypothesis on the input, evaluated along the layout); a
+closed-form sufficient condition for `noWrap64InB` (e.g. "all sizes and addresses below 2^62").
 Correspondence: family load.
 Oracle: bytes of the first save == bytes of a second save of the same object; bytes of
 save(load(save(obj))) == bytes of save(obj).  Known open finding F13 (address-less NOBITS member with
@@ -136,6 +142,10 @@ THEOREMS = ["ElfioVerif.C06.save_twice_witness",
             "ElfioVerif.Compose.noWrap64_of_input",
             "ElfioVerif.Compose.addrSeparate_of_input",
             "ElfioVerif.Compose.save_load_save_flat_input",
+            "ElfioVerif.Compose.save_load_save_core",
+            "ElfioVerif.Compose.save_load_save_of_members_nested",
+            "ElfioVerif.Compose.membersRecomputed_of_input",
+            "ElfioVerif.Compose.save_load_save_nested_input",
             "ElfioVerif.Compose.saveLoadSave_flat_statement",
             "ElfioVerif.Compose.exFlat_resave",
             "ElfioVerif.Compose.exTwo_resave",
